@@ -27,7 +27,9 @@ pub struct Ctx {
     pub probe: bool,
     pub rules: BTreeMap<String, usize>,
     pub errors: Vec<String>,
+    pub soft: Vec<String>,
     pub files: BTreeMap<String, syn::File>,
+    pub pending: Vec<(Vec<syn::Generics>, rewrite::LiftedClosure, String)>,   // lifted closures of methods inside an open trait / impl block
 }
 impl Ctx {
     pub fn fire(&mut self, rule: &str) { *self.rules.entry(rule.to_string()).or_insert(0) += 1; }
@@ -200,7 +202,7 @@ fn find_fn(file: &syn::File, path: &str, nth: usize) -> Vec<Found> {
 // spec files
 // ------------------------------------------------------------------------------------------
 #[derive(Default)]
-pub struct Specs { pub sections: BTreeMap<String, String>, pub used: BTreeSet<String>, pub exempt: BTreeSet<String> }
+pub struct Specs { pub sections: BTreeMap<String, String>, pub used: BTreeSet<String>, pub exempt: BTreeSet<String>, pub defines: Vec<(String, String)> }
 impl Specs {
     fn load_ref(&mut self, p: &Path) -> Result<(), String> {
         let before: BTreeSet<String> = self.sections.keys().cloned().collect();
@@ -209,7 +211,8 @@ impl Specs {
         Ok(())
     }
     fn load(&mut self, p: &Path) -> Result<(), String> {
-        let s = std::fs::read_to_string(p).map_err(|e| format!("cannot read spec {}: {}", p.display(), e))?;
+        let mut s = std::fs::read_to_string(p).map_err(|e| format!("cannot read spec {}: {}", p.display(), e))?;
+        for (k, v) in &self.defines { s = s.replace(&format!("${{{}}}", k), v); }
         let mut cur: Option<String> = None;
         for l in s.lines() {
             if l.starts_with('@') { let k = l[1..].split_whitespace().collect::<Vec<_>>().join(" "); self.sections.entry(k.clone()).or_default(); cur = Some(k); continue; }
@@ -243,7 +246,27 @@ fn clean_bounds(bounds: &syn::punctuated::Punctuated<syn::TypeParamBound, syn::T
     }
     out
 }
+/// L3: generic parameters bounded by Fn/FnMut/FnOnce stand for closure literals passed by value; the unit may name further
+/// bounds (`generic Future<Output = ..> => Stand<A>`) whose parameters are replaced by a concrete stand-in type
+fn closure_generics(gens: &[&syn::Generics], cx: &Ctx) -> BTreeMap<String, String> {
+    let rules = cx.unit.generics.clone();
+    let repl = |b: &syn::TypeParamBound| -> Option<String> {
+        if let syn::TypeParamBound::Trait(tb) = b {
+            if tb.path.segments.last().map(|s| matches!(s.ident.to_string().as_str(), "Fn" | "FnMut" | "FnOnce")).unwrap_or(false) { return Some("ClosureObj".to_string()); }
+            let key = nospace(&tb.path.to_token_stream().to_string());
+            for (a, r) in &rules { if *a == key { return Some(r.clone()); } }
+        }
+        None
+    };
+    let mut out = BTreeMap::new();
+    for g in gens {
+        for p in &g.params { if let syn::GenericParam::Type(tp) = p { if let Some(r) = tp.bounds.iter().find_map(|b| repl(b)) { out.insert(tp.ident.to_string(), r); } } }
+        if let Some(w) = &g.where_clause { for pred in &w.predicates { if let syn::WherePredicate::Type(pt) = pred { if let Some(r) = pt.bounds.iter().find_map(|b| repl(b)) { out.insert(nospace(&pt.bounded_ty.to_token_stream().to_string()), r); } } } }
+    }
+    out
+}
 fn generics_text(gens: &[&syn::Generics], extra_lifetimes: &[String], cx: &mut Ctx) -> (String, String) {
+    let closures = closure_generics(gens, cx);
     let mut params: Vec<String> = extra_lifetimes.to_vec();
     let mut wheres: Vec<String> = vec![];
     // lifetimes first
@@ -252,6 +275,7 @@ fn generics_text(gens: &[&syn::Generics], extra_lifetimes: &[String], cx: &mut C
         for p in &g.params {
             match p {
                 syn::GenericParam::Type(tp) => {
+                    if closures.contains_key(&tp.ident.to_string()) { cx.fire("L3"); continue; }
                     let bs = clean_bounds(&tp.bounds, cx);
                     if bs.is_empty() { params.push(tp.ident.to_string()); } else { params.push(format!("{}: {}", tp.ident, bs.iter().map(|b| tidy(&b.to_string())).collect::<Vec<_>>().join(" + "))); }
                 }
@@ -264,6 +288,7 @@ fn generics_text(gens: &[&syn::Generics], extra_lifetimes: &[String], cx: &mut C
                 match pred {
                     syn::WherePredicate::Type(pt) => {
                         if pt.lifetimes.is_some() { cx.fire("D4"); continue; }
+                        if closures.contains_key(&nospace(&pt.bounded_ty.to_token_stream().to_string())) { continue; }
                         let bs = clean_bounds(&pt.bounds, cx);
                         if bs.is_empty() { continue; }
                         let mut ty = pt.bounded_ty.clone(); rewrite::map_type(&mut ty, cx);
@@ -305,7 +330,73 @@ fn extract_fn(cx: &mut Ctx, specs: &mut Specs, em: &mut Emitter, ex: &Extract) {
     let Some(file) = cx.file(&ex.file) else { return; };
     let found = find_fn(&file, &ex.path, 0);
     if found.len() != 1 { cx.err(format!("lost anchor: {} `{}` in {}: {} candidates", ex.kind, ex.path, ex.file, found.len())); return; }
-    let fd = &found[0];
+    emit_fn(cx, specs, em, ex, &file, &found[0], None);
+}
+
+/// `extract trait <file> <Trait>`: the trait declaration with the bodies of its default methods (Verus supports default methods with contracts)
+fn extract_trait(cx: &mut Ctx, specs: &mut Specs, em: &mut Emitter, ex: &Extract) {
+    let Some(file) = cx.file(&ex.file) else { return; };
+    let mut items = vec![]; all_items(&file.items, &mut items);
+    let Some(tr) = items.iter().find_map(|it| if let syn::Item::Trait(t) = it { if t.ident == ex.path.as_str() { Some(t.clone()) } else { None } } else { None }) else { cx.err(format!("lost anchor: trait `{}` in {}", ex.path, ex.file)); return; };
+    let (g, w) = generics_text(&[&tr.generics], &[], cx);
+    let sup = clean_bounds(&tr.supertraits, cx);
+    let sup_txt = if sup.is_empty() { String::new() } else { format!(": {}", sup.iter().map(|b| tidy(&b.to_string())).collect::<Vec<_>>().join(" + ")) };
+    em.comment(&format!("// @extracted trait `{}` from {}:{}", ex.path, ex.file, tr.ident.span().start().line));
+    em.raw(&format!("pub trait {}{}{}{} {{", tr.ident, g, sup_txt, w));
+    if let Some(extra) = specs.get(&format!("traititems {}", ex.path)) { em.raw_block(&extra, "    "); }
+    let only: Option<Vec<String>> = ex.opt("only").map(|s| s.split(',').map(|x| x.to_string()).collect());
+    for ti in &tr.items {
+        if let syn::TraitItem::Fn(f) = ti {
+            if let Some(o) = &only { if !o.contains(&f.sig.ident.to_string()) { continue; } }
+            let mut e2 = ex.clone(); e2.kind = if f.default.is_some() { "fn".into() } else { "decl".into() }; e2.path = format!("{}::{}", ex.path, f.sig.ident);
+            let fd = Found { im: None, tr: None, f: FnLike { attrs: f.attrs.clone(), sig: f.sig.clone(), block: f.default.clone().unwrap_or_else(|| syn::parse_quote!({})) } };
+            emit_fn(cx, specs, em, &e2, &file, &fd, Some(ex.path.clone()));
+        }
+    }
+    em.raw("}");
+    em.raw("");
+    flush_pending(cx, specs, em);
+}
+
+/// `extract traitimpl <file> <Trait>@<Type>`: one impl block with all (or `only=a,b`) methods
+fn extract_traitimpl(cx: &mut Ctx, specs: &mut Specs, em: &mut Emitter, ex: &Extract) {
+    let Some(file) = cx.file(&ex.file) else { return; };
+    let mut items = vec![]; all_items(&file.items, &mut items);
+    let Some((trn, tyn)) = ex.path.split_once('@') else { cx.err(format!("unit file: traitimpl path `{}` must be Trait@Type", ex.path)); return; };
+    let cands: Vec<syn::ItemImpl> = items.iter().filter_map(|it| if let syn::Item::Impl(im) = it { if trait_head(im).as_deref() == Some(trn) && type_head(&im.self_ty) == tyn { Some(im.clone()) } else { None } } else { None }).collect();
+    if cands.len() != 1 { cx.err(format!("lost anchor: impl {} for {} in {}: {} candidates", trn, tyn, ex.file, cands.len())); return; }
+    let im = &cands[0];
+    let (ig, iw) = generics_text(&[&im.generics], &[], cx);
+    let mut st = (*im.self_ty).clone(); rewrite::map_type(&mut st, cx);
+    let mut tp = im.trait_.as_ref().unwrap().1.clone(); rewrite::map_path_types(&mut tp, cx);
+    em.comment(&format!("// @extracted traitimpl `{}` from {}:{}", ex.path, ex.file, im.impl_token.span.start().line));
+    em.raw(&format!("impl{} {} for {}{} {{", ig, tidy(&tp.to_token_stream().to_string()), tidy(&st.to_token_stream().to_string()), iw));
+    if let Some(extra) = specs.get(&format!("implitems {}", ex.path)) { em.raw_block(&extra, "    "); }
+    let only: Option<Vec<String>> = ex.opt("only").map(|s| s.split(',').map(|x| x.to_string()).collect());
+    for ii in &im.items {
+        if let syn::ImplItem::Fn(f) = ii {
+            if let Some(o) = &only { if !o.contains(&f.sig.ident.to_string()) { continue; } }
+            let mut e2 = ex.clone(); e2.kind = "fn".into(); e2.path = format!("{}::{}", ex.path, f.sig.ident);
+            let mut im2 = im.clone(); im2.items.clear();
+            let fd = Found { im: Some(im2), tr: None, f: FnLike { attrs: f.attrs.clone(), sig: f.sig.clone(), block: f.block.clone() } };
+            emit_fn(cx, specs, em, &e2, &file, &fd, Some(ex.path.clone()));
+        }
+    }
+    em.raw("}");
+    em.raw("");
+    flush_pending(cx, specs, em);
+}
+fn flush_pending(cx: &mut Ctx, specs: &mut Specs, em: &mut Emitter) {
+    let mut work = std::mem::take(&mut cx.pending);
+    while !work.is_empty() {
+        let (gens, lc, file) = work.remove(0);
+        let grefs: Vec<&syn::Generics> = gens.iter().collect();
+        let more = emit_lifted(cx, specs, em, &grefs, &lc, &file);
+        for m in more { work.push((gens.clone(), m, file.clone())); }
+    }
+}
+
+fn emit_fn(cx: &mut Ctx, specs: &mut Specs, em: &mut Emitter, ex: &Extract, file: &syn::File, fd: &Found, in_trait: Option<String>) {
     let base_name = ex.path.rsplit("::").next().unwrap().to_string();
     let mut f = fd.f.clone();
     let mut tr_generics: Option<syn::Generics> = None;
@@ -344,7 +435,7 @@ fn extract_fn(cx: &mut Ctx, specs: &mut Specs, em: &mut Emitter, ex: &Extract) {
         let fields = rewrite::self_fields_used(&f.block);
         if !fields.is_empty() {
             let self_name = fd.im.as_ref().map(|im| type_head(&im.self_ty)).unwrap_or_default();
-            let Some(defs) = struct_fields(&file, &self_name) else { cx.err(format!("lost anchor: struct {} in {}", self_name, ex.file)); return; };
+            let Some(defs) = struct_fields(file, &self_name) else { cx.err(format!("lost anchor: struct {} in {}", self_name, ex.file)); return; };
             for (n, t) in defs { if fields.contains(&n) { captured.push((n, t)); } }
             if fields.iter().any(|n| n == "self") { cx.err(format!("outside dialect: async block {} of {} captures `self` as a whole", k, ex.path)); }
         }
@@ -364,9 +455,11 @@ fn extract_fn(cx: &mut Ctx, specs: &mut Specs, em: &mut Emitter, ex: &Extract) {
     let mut_self = recv.as_ref().map(|r| r.reference.is_none() && r.mutability.is_some()).unwrap_or(false);
     let mut rw = Rw::new(cx, lifted, binders, name.clone());
     rw.self_to_this = mut_self && !lifted;
+    rw.lift_prefix = { let p = ex.path.rsplit('@').next().unwrap().replace("::", "__"); if lifted { format!("{}__async", p) } else { p } };
     let mut block = f.block.clone();
     rw.visit_block_mut(&mut block);
     let nloops = rw.loops;
+    let lifted_closures = std::mem::take(&mut rw.lifted_closures);
     drop(rw);
     if mut_self && !lifted { cx.fire("S1"); let st: syn::Stmt = syn::parse_quote!(let mut this = self;); block.stmts.insert(0, st); }
 
@@ -387,6 +480,7 @@ fn extract_fn(cx: &mut Ctx, specs: &mut Specs, em: &mut Emitter, ex: &Extract) {
     for inp in &f.sig.inputs {
         if let syn::FnArg::Typed(pt) = inp {
             let mut ty = (*pt.ty).clone();
+            if let Some(r) = closure_generics(&[&f.sig.generics], cx).get(&nospace(&ty.to_token_stream().to_string())) { match syn::parse_str::<syn::Type>(r) { Ok(t) => ty = t, Err(e) => cx.err(format!("unit file: generic replacement `{}`: {}", r, e)) } }
             rewrite::map_param_type(&mut ty, cx, &mut lifetimes);
             let mut pat = tidy(&pt.pat.to_token_stream().to_string());
             if pat == "_" { pat = format!("_hx_arg{}", params.len()); cx.fire("P2"); }
@@ -409,13 +503,14 @@ fn extract_fn(cx: &mut Ctx, specs: &mut Specs, em: &mut Emitter, ex: &Extract) {
 
     let in_impl = !lifted && fd.im.is_some();
     let in_trait_impl = in_impl && fd.im.as_ref().unwrap().trait_.is_some();
-    let name = if in_impl { ex.path.clone() } else { name };
-    let fn_ident = if in_impl { base_name.clone() } else { name.clone() };
-    let indent = if in_impl { "    " } else { "" };
+    let name = if in_impl || in_trait.is_some() { ex.path.clone() } else { name };
+    let fn_ident = if in_impl || in_trait.is_some() { base_name.clone() } else { name.clone() };
+    let indent = if in_impl || in_trait.is_some() { "    " } else { "" };
 
     // ---- emit
     em.comment(&format!("// @extracted {} `{}` from {}:{} as `{}`{}", ex.kind, ex.path, ex.file, src_line, name, if captured.is_empty() { String::new() } else { format!(" captures self.{{{}}}", captured.iter().map(|c| c.0.clone()).collect::<Vec<_>>().join(",")) }));
-    if in_impl {
+    let wrap = in_impl && in_trait.is_none();
+    if wrap {
         let im = fd.im.as_ref().unwrap();
         let (ig, iw) = generics_text(&[&im.generics], &[], cx);
         let mut st = (*im.self_ty).clone(); rewrite::map_type(&mut st, cx);
@@ -425,24 +520,106 @@ fn extract_fn(cx: &mut Ctx, specs: &mut Specs, em: &mut Emitter, ex: &Extract) {
     }
     if nloops > 0 || specs.get(&format!("nodecreases {}", name)).is_some() { em.raw(&format!("{}#[verifier::exec_allows_no_decreases_clause]", indent)); }
     if let Some(attrs) = specs.get(&format!("attrs {}", name)) { em.raw_block(&attrs, indent); }
-    let vis = if in_trait_impl { "" } else { "pub " };
+    let vis = if in_trait_impl || in_trait.is_some() { "" } else { "pub " };
     let is_stub = ex.kind == "stub";
+    let is_decl = ex.kind == "decl";
     if is_stub { em.raw(&format!("{}#[verifier::external_body] // @stub contract proved in another unit", indent)); }
     let fn_start = em.line();
     em.raw(&format!("{}{}fn {}{}({}){}{}", indent, vis, fn_ident, gtxt, params.join(", "), ret, wtxt));
     match specs.get(&format!("fn {}", name)) { Some(s) => em.raw_block(&s, ""), None => { if is_stub { cx.err(format!("lost anchor: stub `{}` has no contract section", name)); } } }
-    let proof_entry = specs.get(&format!("proof {} entry", name));
+    let proof_entry = entry_text(cx, specs.get(&format!("proof {} entry", name)));
     let mut loopspecs: BTreeMap<usize, (String, Option<String>, Option<String>)> = BTreeMap::new();
     for k in 0..nloops {
         let inv = specs.get(&format!("loop {} {}", name, k)).unwrap_or_default();
         loopspecs.insert(k, (inv, specs.get(&format!("proof {} loop {} start", name, k)), specs.get(&format!("proof {} loop {} end", name, k))));
     }
-    if is_stub { em.raw(&format!("{}{{ unimplemented!() }}", indent)); } else { em.body(&block, if in_impl { 1 } else { 0 }, &ex.file, proof_entry.as_deref(), &loopspecs); }
-    if in_impl { em.raw("}"); }
+    if is_decl { em.raw(&format!("{};", indent)); }
+    else if is_stub { em.raw(&format!("{}{{ unimplemented!() }}", indent)); } else { em.body(&block, if in_impl || in_trait.is_some() { 1 } else { 0 }, &ex.file, proof_entry.as_deref(), &loopspecs); }
+    if wrap { em.raw("}"); }
     let fn_end = em.line();
     em.functions.push(emit::FnInfo { name: name.clone(), file: ex.file.clone(), src_line, gen_start: fn_start, gen_end: fn_end, kind: ex.kind.clone(), path: ex.path.clone(), loops: nloops, captured: captured.iter().map(|c| c.0.clone()).collect() });
     for (id, wh) in probes { em.probes.push((id, name.clone(), wh)); }
     em.raw("");
+    // ---- closures / async blocks used as values (rules L1, A3)
+    let mut all_gens: Vec<&syn::Generics> = vec![];
+    let ig2; if let Some(im) = &fd.im { ig2 = im.generics.clone(); all_gens.push(&ig2); }
+    if let Some(g) = &tr_generics { all_gens.push(g); }
+    all_gens.push(&f.sig.generics);
+    if in_trait.is_some() {
+        let owned: Vec<syn::Generics> = all_gens.iter().map(|g| (*g).clone()).collect();
+        for lc in lifted_closures { cx.pending.push((owned.clone(), lc, ex.file.clone())); }
+        return;
+    }
+    let mut work = lifted_closures;
+    while !work.is_empty() {
+        let lc = work.remove(0);
+        let more = emit_lifted(cx, specs, em, &all_gens, &lc, &ex.file);
+        work.extend(more);
+    }
+}
+
+fn entry_text(cx: &Ctx, extra: Option<String>) -> Option<String> {
+    let mut t = String::new();
+    if !cx.unit.broadcasts.is_empty() { t.push_str(&format!("broadcast use {};\n", cx.unit.broadcasts.join(", "))); }
+    if let Some(e) = extra { t.push_str(&e); }
+    if t.is_empty() { None } else { Some(t) }
+}
+fn fnv(s: &str) -> u64 { let mut h: u64 = 0xcbf29ce484222325; for b in s.bytes() { h ^= b as u64; h = h.wrapping_mul(0x100000001b3); } h % 1_000_000_007 }
+
+/// constructor stand-in (what the code object owns) and, if the spec gives a signature, the lifted body as a function under contract
+fn emit_lifted(cx: &mut Ctx, specs: &mut Specs, em: &mut Emitter, gens: &[&syn::Generics], lc: &rewrite::LiftedClosure, file: &str) -> Vec<rewrite::LiftedClosure> {
+    let (gtxt_all, wtxt_all) = generics_text(gens, &[], cx);
+    let kind = if lc.is_async_block { "async block" } else { "closure" };
+    em.comment(&format!("// @lifted {} `{}` from {}:{} captures [{}]{}", kind, lc.name, file, lc.line, lc.captures.join(", "), if lc.is_move { " (move)" } else { " (by reference)" }));
+    // ---- constructor
+    let ctor = format!("{}__new", lc.name);
+    let mut own = String::from("own_none()");
+    let mut tps = vec![]; let mut ps = vec![];
+    for (i, c) in lc.captures.iter().enumerate() { let c = if c == "self" { "this".to_string() } else { c.clone() }; tps.push(format!("HxT{}", i)); ps.push(format!("{}: HxT{}", c, i)); own = format!("own_join({}, own_of(&{}))", own, c); }
+    let start = em.line();
+    em.raw("#[verifier::external_body] // @closure-constructor: a closure object owns exactly what its literal captures (Rust semantics)");
+    match specs.get(&format!("sig {}", ctor)) {
+        Some(sig) => em.raw(&format!("pub fn {}{}{} -> (r: ClosureObj){}", ctor, gtxt_all, sig.trim(), wtxt_all)),
+        None => em.raw(&format!("pub fn {}{}({}) -> (r: ClosureObj)", ctor, if tps.is_empty() { String::new() } else { format!("<{}>", tps.join(", ")) }, ps.join(", "))),
+    }
+    em.raw(&format!("    ensures r.captured() == {}, r.code() == {},", own, fnv(&lc.name)));
+    if let Some(extra) = specs.get(&format!("new {}", lc.name)) { em.raw_block(&extra, ""); }
+    em.raw("{ unimplemented!() }");
+    em.functions.push(emit::FnInfo { name: ctor.clone(), file: file.to_string(), src_line: lc.line, gen_start: start, gen_end: em.line(), kind: "closure-constructor".into(), path: lc.name.clone(), loops: 0, captured: lc.captures.clone() });
+    em.raw("");
+    // ---- lifted body, only when the spec gives its signature
+    let Some(sig) = specs.get(&format!("sig {}", lc.name)) else { return vec![]; };
+    let mut block = lc.body.clone();
+    rewrite::inline_tail_async(&mut block, cx);
+    let mut binders = BTreeSet::new();
+    for p in &lc.inputs { rewrite::collect_binders_pat(p, &mut binders); }
+    for c in &lc.captures { binders.insert(c.clone()); }
+    rewrite::collect_binders_block(&block, &mut binders);
+    let mut rw = Rw::new(cx, false, binders, lc.name.clone());
+    rw.lift_prefix = lc.name.clone();
+    rw.visit_block_mut(&mut block);
+    let nloops = rw.loops;
+    let more = std::mem::take(&mut rw.lifted_closures);
+    drop(rw);
+    let mut probes: Vec<(usize, String)> = vec![];
+    if cx.probe { rewrite::insert_probes(&mut block, &lc.name, em, &mut probes); }
+    if nloops > 0 { em.raw("#[verifier::exec_allows_no_decreases_clause]"); }
+    let fn_start = em.line();
+    let sig = sig.trim();
+    // `(params) -> ret`  ;  the ghost world parameter is appended unless the signature says `nowrld`
+    let (params, ret) = match sig.rsplit_once("->") { Some((a, b)) if a.trim_end().ends_with(')') => (a.trim().to_string(), Some(b.trim().to_string())), _ => (sig.to_string(), None) };
+    let params = params.trim().trim_start_matches('(').trim_end_matches(')').to_string();
+    let ghost = if specs.get(&format!("pure {}", lc.name)).is_some() { String::new() } else { format!("{}Tracked(w): Tracked<&mut World>", if params.trim().is_empty() { "" } else { ", " }) };
+    em.raw(&format!("pub fn {}{}({}{}){}{}", lc.name, gtxt_all, params, ghost, match &ret { Some(r) => format!(" -> (r: {})", r), None => String::new() }, wtxt_all));
+    if let Some(sp) = specs.get(&format!("fn {}", lc.name)) { em.raw_block(&sp, ""); }
+    let proof_entry = entry_text(cx, specs.get(&format!("proof {} entry", lc.name)));
+    let mut loopspecs: BTreeMap<usize, (String, Option<String>, Option<String>)> = BTreeMap::new();
+    for k in 0..nloops { loopspecs.insert(k, (specs.get(&format!("loop {} {}", lc.name, k)).unwrap_or_default(), specs.get(&format!("proof {} loop {} start", lc.name, k)), specs.get(&format!("proof {} loop {} end", lc.name, k)))); }
+    em.body(&block, 0, file, proof_entry.as_deref(), &loopspecs);
+    em.functions.push(emit::FnInfo { name: lc.name.clone(), file: file.to_string(), src_line: lc.line, gen_start: fn_start, gen_end: em.line(), kind: "fn".into(), path: lc.name.clone(), loops: nloops, captured: lc.captures.clone() });
+    for (id, wh) in probes { em.probes.push((id, lc.name.clone(), wh)); }
+    em.raw("");
+    more
 }
 
 fn extract_struct(cx: &mut Ctx, specs: &mut Specs, em: &mut Emitter, ex: &Extract) {
@@ -571,14 +748,16 @@ fn main() {
     }
     let unit_path = unit_path.expect("--unit");
     let unit = match Unit::load(&unit_path) { Ok(u) => u, Err(e) => { eprintln!("hx: {}", e); std::process::exit(2); } };
-    let mut cx = Ctx { unit, repo, probe, rules: BTreeMap::new(), errors: vec![], files: BTreeMap::new() };
+    let mut cx = Ctx { unit, repo, probe, rules: BTreeMap::new(), errors: vec![], soft: vec![], files: BTreeMap::new(), pending: vec![] };
     let mut specs = Specs::default();
+    specs.defines = cx.unit.defines.clone();
     for s in cx.unit.specs.clone() { if let Err(e) = specs.load(&root.join(&s)) { eprintln!("hx: {}", e); std::process::exit(2); } }
     for s in cx.unit.specrefs.clone() { if let Err(e) = specs.load_ref(&root.join(&s)) { eprintln!("hx: {}", e); std::process::exit(2); } }
     let mut em = Emitter::new();
     em.raw("// GENERATED by /verif/hx from the current working tree of /repo — do not edit.");
     em.raw("#![allow(unused_imports, unused_variables, unused_mut, dead_code, non_snake_case, unused_parens, unused_braces, unreachable_code, unused_assignments, non_camel_case_types, unused_must_use)]");
     em.raw("use vstd::prelude::*;");
+    em.raw("use std::marker::PhantomData;");
     em.raw("verus! {");
     if cx.probe { em.raw("pub uninterp spec fn hx_probe(k: int) -> bool;"); }
     for p in cx.unit.preludes.clone() {
@@ -589,18 +768,23 @@ fn main() {
     for ex in cx.unit.extracts.clone() {
         match ex.kind.as_str() {
             "fn" | "asyncblock" | "stub" => extract_fn(&mut cx, &mut specs, &mut em, &ex),
+            "trait" => extract_trait(&mut cx, &mut specs, &mut em, &ex),
+            "traitimpl" => extract_traitimpl(&mut cx, &mut specs, &mut em, &ex),
             "struct" | "alias" | "enum" => extract_struct(&mut cx, &mut specs, &mut em, &ex),
             "traitshape" => check_trait_shape(&mut cx, &ex),
             other => cx.err(format!("unit file: unknown extract kind {}", other)),
         }
     }
+    if specs.exempt.contains("tail") { specs.sections.remove("tail"); }
     if let Some(t) = specs.get("tail") { em.comment("// @tail (spec-level lemmas of the unit)"); em.raw_block(&t, ""); }
     em.raw("} // verus!");
     em.raw("fn main() {}");
     // unused spec sections are a lost anchor too: a contract that is attached to nothing proves nothing
-    for k in specs.sections.keys() { if !specs.used.contains(k) && !specs.exempt.contains(k) { cx.err(format!("lost anchor: spec section `@{}` matches no extracted item", k)); } }
+    // (soft: the generated file is still written, so that a definite violation elsewhere is not masked by the lost anchor)
+    for k in specs.sections.keys() { if !specs.used.contains(k) && !specs.exempt.contains(k) { cx.soft.push(format!("lost anchor: spec section `@{}` matches no extracted item", k)); } }
     if let Some(o) = &out { std::fs::write(o, em.text()).expect("write out"); } else { print!("{}", em.text()); }
     if let Some(m) = &map { std::fs::write(m, em.map_json(&cx)).expect("write map"); }
     if !cx.errors.is_empty() { for e in &cx.errors { eprintln!("hx: {}", e); } std::process::exit(2); }
+    if !cx.soft.is_empty() { for e in &cx.soft { eprintln!("hx: {}", e); } std::process::exit(3); }
     let _ = quote!();
 }
